@@ -71,7 +71,7 @@ structure IndexInfo where
 /-- the implicit `_id_` index yielded first by `_list_all_indexes` (collection.py:1606) -/
 def idIndex : IndexInfo := ⟨[("_id", 1)], false, false⟩
 
-/-- `CollectionStore` (store.py:63-87): `_documents` (ids only), `indexes`, `_is_force_created` -/
+/-- `CollectionStore` (store.py:63-93): `_documents` (ids only), `indexes`, `_is_force_created` -/
 structure Coll where
   docs : List Nat
   indexes : List (String × IndexInfo)
@@ -79,11 +79,18 @@ structure Coll where
   deriving DecidableEq, Repr, Inhabited
 
 /-- `CollectionStore(name)` as built by `DatabaseStore.__getitem__`; also the result of `drop()`
-    (store.py:80-84) -/
+    (store.py:83-87) -/
 def Coll.empty : Coll := ⟨[], [], false⟩
 
-/-- `is_created` (store.py:76-78): derived, not recorded -/
+/-- `is_created` (store.py:79-81): `self._documents or self.indexes or self._is_force_created` -/
 def Coll.isCreated (c : Coll) : Bool := !c.docs.isEmpty || !c.indexes.isEmpty || c.forceCreated
+
+/-- existence is *recorded*: `_is_force_created` is set by `create()`, by every
+    `__setitem__` (store.py:122-125, the first insert) and by `create_index` (store.py:89-90), and
+    reset only by `drop()`; so a store that holds a document or an index has the flag set, and
+    `is_created` is the flag.  An invariant of every history (`Spec.Catalog.WF`,
+    `Proofs.C17.wf_run`), not of every value of the type. -/
+def Coll.recorded (c : Coll) : Bool := c.forceCreated || (c.docs.isEmpty && c.indexes.isEmpty)
 
 /-- `helpers.gen_index_name` (helpers.py:96-99): `'_'.join('%s_%s' % item)` -/
 def genIndexName (ks : List (String × Int)) : String :=
@@ -138,22 +145,26 @@ def collOp : CollOp → Coll → Coll × Out
   -- collection.py:1603-1608 `_list_all_indexes`: nothing unless `is_created`, else `_id_` first
   | .indexInformation, c =>
     (c, .indexes (if c.isCreated then ("_id_", idIndex) :: c.indexes else []))
-  -- collection.py:533-541: DuplicateKeyError when the id is stored, else appended
+  -- collection.py `_insert`: DuplicateKeyError when the id is stored, else
+  -- `self._store[object_id] = data` (store.py `__setitem__`: sets `_is_force_created`, appends)
   | .insert id, c =>
-    if c.docs.contains id then (c, .err .dupKey) else ({ c with docs := c.docs ++ [id] }, .ok)
+    if c.docs.contains id then (c, .err .dupKey)
+    else ({ c with docs := c.docs ++ [id], forceCreated := true }, .ok)
   -- collection.py:1404-1431 `_delete` with `{'_id': id}`
   | .deleteOne id, c =>
     if c.docs.contains id then ({ c with docs := c.docs.erase id }, .count 1) else (c, .count 0)
   | .deleteAll, c => ({ c with docs := [] }, .count c.docs.length)
-  -- collection.py:1507-1562: name given or generated; an existing index of that name must have
-  -- the same document; `store.create_index` assigns `indexes[name]`
+  -- collection.py `create_index`: name given or generated; an existing index of that name must
+  -- have the same document; `store.create_index` (store.py:89-93) sets `_is_force_created` and
+  -- assigns `indexes[name]`
   | .createIndex nm info, c =>
     let name := nm.getD (genIndexName info.key)
     match alGet? name c.indexes with
     | some ex =>
-      if ex = info then ({ c with indexes := alUpsert name info c.indexes }, .name name)
+      if ex = info then
+        ({ c with indexes := alUpsert name info c.indexes, forceCreated := true }, .name name)
       else (c, .err .opFail)
-    | none => ({ c with indexes := alUpsert name info c.indexes }, .name name)
+    | none => ({ c with indexes := alUpsert name info c.indexes, forceCreated := true }, .name name)
   -- collection.py:1581-1591 / store.py:95-101: KeyError → OperationFailure
   | .dropIndex r, c =>
     if alHas r.name c.indexes then ({ c with indexes := alErase r.name c.indexes }, .ok)
